@@ -24,18 +24,27 @@ type isoFixture struct {
 func (f *isoFixture) Close() { os.RemoveAll(f.Tmp) }
 
 func newIsoFixture(tree *hx.Node) (*isoFixture, error) {
+	return newIsoFixtureNamed(tree, "t")
+}
+
+// newIsoFixtureNamed: the image root directory's own name becomes the volume name in plain mode.
+func newIsoFixtureNamed(tree *hx.Node, rootName string) (*isoFixture, error) {
+	if rootName == "" {
+		rootName = "t"
+	}
 	tmp, err := hx.Scratch("iso")
 	if err != nil {
 		return nil, err
 	}
-	if err := os.Mkdir(filepath.Join(tmp, "t"), 0o755); err != nil {
-		return nil, err
-	}
-	if err := hx.Materialize(filepath.Join(tmp, "t"), tree); err != nil {
+	if err := os.Mkdir(filepath.Join(tmp, rootName), 0o755); err != nil {
 		os.RemoveAll(tmp)
 		return nil, err
 	}
-	return &isoFixture{Tmp: tmp, Fs: afero.NewBasePathFs(afero.NewOsFs(), tmp), Root: "/t"}, nil
+	if err := hx.Materialize(filepath.Join(tmp, rootName), tree); err != nil {
+		os.RemoveAll(tmp)
+		return nil, err
+	}
+	return &isoFixture{Tmp: tmp, Fs: afero.NewBasePathFs(afero.NewOsFs(), tmp), Root: "/" + rootName}, nil
 }
 
 // sfoBytes builds a well-formed PARAM.SFO with the given string fields (order as given).
